@@ -1242,14 +1242,18 @@ class World:
         if peer is None:
             init = list(reversed(self.order))
             k = len(self.log)
-            if k % 5 == 0 and init:
+            if k % 7 == 0 and init:
                 init = init[:-1]
-            elif k % 5 == 1 and len(init) > 2:
+            elif k % 7 == 1 and len(init) > 2:
                 init = init[1:] + init[:1]
-            elif k % 5 == 3:
+            elif k % 7 == 3:
                 init = list(self.order[:-1])    # a prefix of this order
-            elif k % 5 == 4:
+            elif k % 7 == 4:
                 init = []
+            elif k % 7 == 5:
+                init = [self.U[-1]]             # one variable
+            elif k % 7 == 6 and init:
+                init = init[:1]
             pk = self.kind
             if k % 4 == 2 and not self.cfg.get('reordering'):
                 # a manager of the other kind (dd.bdd <-> dd.autoref)
